@@ -124,7 +124,26 @@ def _ref_call(r):
 
 core._PATCH_REGISTRATIONS[weakref.ref.__call__] = _ref_call
 
+# 5. format(symbolic int, "" | "d"): the stock model realises the value (one path per value, so
+#    a rejected version number or a length in an error/debug text can never be exhausted); the
+#    decimal rendering of CrossHair's own SymbolicInt.__repr__ (forks once per digit count) is
+#    used instead.
+_orig_format = B._format
+
+
+def _format(obj, format_spec=""):
+    with NoTracing():
+        is_int = isinstance(obj, B.SymbolicInt)
+        spec = core.realize(format_spec)
+    if is_int and spec in ("", "d"):
+        return obj.__repr__()
+    return _orig_format(obj, format_spec)
+
+
+core._PATCH_REGISTRATIONS[format] = _format
+
 MODELS = [
+    "format(symbolic int, ''|'d') = symbolic decimal string (CrossHair's SymbolicInt.__repr__), not realised",
     "weakref.ref(): plain dereference without the stock model's gc.collect()",
     "int.to_bytes(symbolic): fresh bytes b_i in [0,255], v (+2^{8n} if negative) = sum b_i*256^i",
     "struct.pack('!c', symbolic 1-byte bytes) pass-through; symbolic bool -> int before pack",
